@@ -241,8 +241,21 @@ OBLIGATIONS = [('dispatch_step_executes', ob_dispatch_executes), ('hub_update_d0
                ('bond_rewards', ob_bond_rewards), ('bond_rewards_v2', lambda ctx: ob_bond_rewards(ctx, 2)), ('linked_update', ob_linked)]
 
 
+def _reward_step(ctx):
+    """the reward contract's side of the update, as a step of its own (world, claims and replay of C14): the recorded balance
+    follows the actual one, so that the *next* update credits only what was delivered since"""
+    from checks.c14 import step
+    return step('UpdateGlobalIndex')(ctx)
+
+
+OBLIGATIONS.append(('reward_index_update', _reward_step))
+
+
 def ORACLE(v, scn, out):
     key = v.get('key') or ''
+    if key.startswith('UpdateGlobalIndex:'):
+        from checks.c14 import ORACLE as O14
+        return O14(v, scn, out)
     res = out.get('result', {})
     if key == 'linked:zero_coin_revert':
         if 'ok' not in res:
